@@ -122,6 +122,18 @@ func evVoxelID(t *Tracer, w Win, id ID) {
 
 func driveNotation(t *Tracer, r Rng, n int) {
 	for i := 0; i < n; i++ {
+		if i%700 == 29 { // long lists: length and order are part of the statement
+			d := r.In(8, 20)
+			w := r.randomWindow(d, d, true)
+			var ids []ID
+			for k := r.In(300, 1500); k > 0; k-- {
+				ids = append(ids, r.randomIDAt(w, r.In(0, d), 0))
+				ids[len(ids)-1].V = ids[len(ids)-1].H
+			}
+			evSpToExt(t, w, ids)
+			evExtToSp(t, w, ids)
+			continue
+		}
 		switch r.Intn(6) {
 		case 0:
 			d := r.In(0, 26)
